@@ -39,6 +39,7 @@ type Stats struct {
 	Lost, Reload                                int
 	OutSigned, OutErr                           map[string]int
 	DistinctNontrivial                          int
+	WriteFail, ReleasedWithoutRecord            int // requests during which the state file could not be written / of those, answered with a signature
 	Samples                                     []string
 }
 
@@ -122,6 +123,8 @@ func (o Op) coq() string {
 		return "SReq " + o.Req.coq()
 	case "lost":
 		return "SReqLost " + o.Req.coq()
+	case "fail":
+		return "SReqFail " + o.Req.coq()
 	}
 	return "SReload"
 }
@@ -161,6 +164,15 @@ func genCase(rng *rand.Rand, st *Stats) []Op {
 			if rng.Intn(8) == 0 {
 				kind = "lost"
 				st.Lost++
+			}
+			if kind == "req" && rng.Intn(12) == 0 {
+				// the write of the state file fails: nothing is signed, the shadow does not move; the
+				// same height/round/step is then asked again with another content
+				ops = append(ops, Op{"fail", q}, Op{"req", Req{h, r, s, (q.Content + 1) % 4, ts + 1}})
+				ch, cr, cs, cc, signed = h, r, s, (q.Content+1)%4, true
+				st.WriteFail++
+				st.Fresh++
+				continue
 			}
 			ops = append(ops, Op{kind, q})
 			ch, cr, cs, cc, signed = h, r, s, q.Content, true
@@ -267,6 +279,21 @@ func Generate(seed int64, nCases int, outPath string, scratch string, jsonPath s
 				_ = doReq(pv, o.Req)
 				pv = rcrypto.LoadSFilePV(keyFile, stateFile, nil)
 				outS = append(outS, "ONone")
+			case "fail":
+				// the state file cannot be written while this request is being signed (its directory is
+				// gone): the signer must stop without releasing a signature; the process then starts again
+				// from the files.  A signature that is released nevertheless is recorded as such.
+				away := dir + ".away"
+				out := "ONone"
+				if err := os.Rename(dir, away); err == nil {
+					if o2 := doReq(pv, o.Req); strings.HasPrefix(o2, "OSigned") && !strings.HasPrefix(o2, "OSigned (-") {
+						out = o2
+						st.ReleasedWithoutRecord++
+					}
+					_ = os.Rename(away, dir)
+				}
+				pv = rcrypto.LoadSFilePV(keyFile, stateFile, nil)
+				outS = append(outS, out)
 			default:
 				pv = rcrypto.LoadSFilePV(keyFile, stateFile, nil)
 				outS = append(outS, "ONone")
